@@ -285,6 +285,9 @@ func (x *Exec) cxField(env *cxEnv, obj Term, name string, e cx) Term {
 				if isPtr && named != nil {
 					r := x.readFieldFrom(env, fieldKeyOf(named, f), fs, cur.S)
 					r.T = f.Type()
+					if !strings.Contains(r.S, "!b") {
+						x.ifaceWellTyped(env.live, r, f.Type())
+					}
 					x.rigidLinkField(env.live, fieldKeyOf(named, f), cur.S, r)
 					return r, true
 				}
@@ -590,7 +593,7 @@ func (x *Exec) modelApply(env *cxEnv, mu *UnitSpec, args []Term) Term {
 		x.hdr = savedHdr
 		return r
 	}
-	if x.revealed[mu.Key] || mu.Flags["pred"] {
+	if x.revealed[mu.Key] || mu.Flags["pred"] || transparentModel(mu) != "" {
 		return expand()
 	}
 	// caller mode: (select MF obj) [idx...]
@@ -719,4 +722,16 @@ func (x *Exec) modelParamType(mu *UnitSpec, i int) types.Type {
 		return types.NewPointer(t)
 	}
 	return t
+}
+
+
+// transparentModel: a model whose definition is a single field of its first
+// parameter is that field, in callers too.
+func transparentModel(mu *UnitSpec) string {
+	if sel, ok := mu.ModelDef.(*cxSel); ok && len(mu.Params) == 1 {
+		if id, ok := sel.X.(*cxIdent); ok && id.Name == mu.Params[0] {
+			return sel.Sel
+		}
+	}
+	return ""
 }
